@@ -59,7 +59,9 @@ NEGATIVE = [  # (cfg, expected kind, expected name)
     ("PoolRun_neg_panicnil.cfg", "invariant", "Outcome"),
     ("PoolRun_neg_isctx.cfg", "invariant", "Outcome"),
     ("PoolRun_neg_callerctx.cfg", "invariant", "StopAfterReturn"),  # pools run on the caller's ctx: Run's deferred cancel misses them
-    ("PoolRun_neg_callerctx_live.cfg", "temporal", ""),             # ... and a healthy long pool never stops, Wait never returns         # IsCtxError accepting any context-kind cause once ctx is done
+    ("PoolRun_neg_callerctx_live.cfg", "temporal", ""),             # ... and a healthy long pool never stops, Wait never returns
+    ("PoolRun_neg_noengselect.cfg", "invariant", "CancelPrompt"),   # Engine.Run without its own `case <-ctx.Done()`: stuck behind a blocked warm-up (seeded C05-7)
+    ("PoolRun_neg_noengselect_live.cfg", "temporal", ""),           # ... as a liveness counterexample (only Engine.Run fair)
 ]
 
 
@@ -103,7 +105,8 @@ def validate(v, rows, plans, d, workers=None, report=True, module="TracePoolRun"
     for r_ in rows:
         byrun.setdefault(r_["run"], []).append(r_)
     path = os.path.join(d, "%s_%d.ndjson" % (module, len(rows)))
-    vlib.write_ndjson(path, rows)
+    # the lines of a run are contiguous for the trace spec (a run abandoned after a confirmed hang may still write lines later)
+    vlib.write_ndjson(path, [e for k in sorted(byrun) for e in byrun[k]])
     tr = vlib.tlc(module, (cfg or module) + ".cfg", env={"VERIF_TRACE": path}, workers=workers, deadlock=False,
                   timeout=2400, heap="8g")
     if tr.error:
@@ -221,10 +224,11 @@ def run(tier, v):
     def live():
         res = []
         cfgs = ["PoolRun_live.cfg", "PoolRun_livec.cfg", "PoolRun_prompt.cfg", "PoolRun_exh2q.cfg", "PoolRun_long.cfg",
-                "PoolRun_livelong.cfg"] if thorough else ["PoolRun_liveq.cfg", "PoolRun_promptq.cfg", "PoolRun_longq.cfg"]
+                "PoolRun_livelong.cfg", "PoolRun_block.cfg", "PoolRun_liveblock.cfg"] if thorough else \
+            ["PoolRun_liveq.cfg", "PoolRun_promptq.cfg", "PoolRun_longq.cfg", "PoolRun_blockq.cfg"]
         for cfg in cfgs:
             r = fix_temporal(vlib.tlc("PoolRunMC", cfg, workers=max(2, ncpu // 4), timeout=3000,
-                                      deadlock=cfg.startswith(("PoolRun_exh", "PoolRun_long")), heap="12g" if thorough else "4g"))
+                                      deadlock=cfg.startswith(("PoolRun_exh", "PoolRun_long", "PoolRun_block")), heap="12g" if thorough else "4g"))
             vlib.log("   (%s)" % cfg)
             vlib.tlc_must_pass(r, cfg)
             res.append((cfg, r))
